@@ -355,13 +355,13 @@ type SparseConstInt8VectorJointIterator struct {
   idx int
   s1 ConstInt8
   s2 ConstScalar
+  ok bool
 }
 func (obj *SparseConstInt8VectorJointIterator) Index() int {
   return obj.idx
 }
 func (obj *SparseConstInt8VectorJointIterator) Ok() bool {
-  return !(obj.s1.GetInt8() == int8(0)) ||
-         !(obj.s2.GetInt8() == int8(0))
+  return obj.ok
 }
 func (obj *SparseConstInt8VectorJointIterator) Next() {
   ok1 := obj.it1.Ok()
@@ -378,17 +378,21 @@ func (obj *SparseConstInt8VectorJointIterator) Next() {
       obj.idx = obj.it2.Index()
       obj.s1 = ConstInt8(0)
       obj.s2 = obj.it2.GetConst()
+      ok1 = false
     case obj.idx == obj.it2.Index():
       obj.s2 = obj.it2.GetConst()
+    default:
+      ok2 = false
     }
   }
-  if obj.s1 != ConstInt8(0) {
+  // the iteration ends when no iterator delivered an element, zero
+  // elements of dense vectors must not terminate it
+  obj.ok = ok1 || ok2
+  if ok1 {
     obj.it1.Next()
   }
-  if obj.s2 != ConstInt8(0) {
+  if ok2 {
     obj.it2.Next()
-  } else {
-    obj.s2 = ConstInt8(0.0)
   }
 }
 func (obj *SparseConstInt8VectorJointIterator) GetConst() (ConstScalar, ConstScalar) {
@@ -404,6 +408,7 @@ func (obj *SparseConstInt8VectorJointIterator) CloneConstJointIterator() VectorC
   r.idx = obj.idx
   r.s1 = obj.s1
   r.s2 = obj.s2
+  r.ok = obj.ok
   return &r
 }
 /* math
